@@ -51,6 +51,19 @@ SumOk(x) ==
     [] x.t = "pli"  -> PliSsrcOk(x.ssrc)
     [] OTHER -> TRUE
 
+\* SumOk with the sets it consults passed in: SumOk(x) = SumOkWith(x, S, S, okTw, PliSsrcOk(x.ssrc)) with S = the numbers
+\* read on x.ssrc.  Trace_Mock.tla (executions of the repository's own tests, where reads happen on MockStream's own goroutine)
+\* uses it with `sure` = numbers the interceptor has certainly processed and `maybe` = numbers it may have processed.
+SumOkWith(x, sure, maybe, tw, pliOk) ==
+  CASE x.t = "rr"   -> x.hi \in maybe \cup {0}
+    [] x.t = "nack" -> /\ Range(x.nums) \cap sure = {}
+                       /\ maybe # {}
+                       /\ \A n \in Range(x.nums) : \E m \in maybe : (m - n) % 65536 \in 1 .. 32767   \* behind a read number
+    [] x.t = "twcc" -> Range(x.nums) \subseteq tw
+    [] x.t = "ccfb" -> Range(x.nums) \subseteq maybe
+    [] x.t = "pli"  -> pliOk
+    [] OTHER -> TRUE
+
 Accept(e) ==
   IF e.a = "wire" THEN
        /\ ~e.closed
